@@ -191,6 +191,12 @@ def get_node(topo, name):
 
 def get_iface(topo, ref):
     """ref = [node name, interface name] or [node name, interface name, child name] or ['svc', service, iface]"""
+    if ref[0] == 'stale':
+        # a handle whose element was removed after the handle was obtained (see op make_stale_ifaces)
+        st = getattr(topo, '_verif_stale', None)
+        if not st:
+            raise Unresolved('no stale handles prepared')
+        return st[ref[1] % len(st)]
     if ref[0] == 'svc':
         try:
             return topo.network_services[ref[1]].interfaces[ref[2]]
@@ -206,11 +212,23 @@ def get_iface(topo, ref):
         raise Unresolved(f'interface {ref}')
 
 
-def get_service(topo, name):
+def get_service(topo, name, cached=False):
+    """cached=True: reuse the handle object an earlier call returned (users keep handles), if there is one."""
+    if cached:
+        h = getattr(topo, '_verif_handles', {}).get(name)
+        if h is not None:
+            return h
     try:
         return topo.network_services[name]
     except KeyError:
         raise Unresolved(f'service {name}')
+
+
+def remember(topo, name, handle):
+    if not hasattr(topo, '_verif_handles'):
+        topo._verif_handles = {}
+    topo._verif_handles[name] = handle
+    return handle
 
 
 def get_element(topo, ref):
@@ -272,31 +290,31 @@ def execute(topo, op):
         return topo.remove_switch(name=op['name'])
     if o == 'add_network_service':
         ifs = [get_iface(topo, r) for r in op['interfaces']] if op.get('interfaces') is not None else None
-        return topo.add_network_service(name=op['name'], node_id=op.get('node_id'), nstype=ServiceType[op['nstype']],
-                                        interfaces=ifs, **kw)
+        return remember(topo, op['name'], topo.add_network_service(name=op['name'], node_id=op.get('node_id'),
+                                                                   nstype=ServiceType[op['nstype']], interfaces=ifs, **kw))
     if o == 'add_port_mirror_service':
         return topo.add_port_mirror_service(name=op['name'], node_id=op.get('node_id'), from_interface_name=op['from'],
                                             to_interface=get_iface(topo, op['to']), **kw)
     if o == 'remove_network_service':
         return topo.remove_network_service(op['name'])
     if o == 'add_node_service':
-        return get_node(topo, op['node']).add_network_service(name=op['name'], node_id=op.get('node_id'),
-                                                              nstype=ServiceType[op['nstype']], **kw)
+        return remember(topo, op['name'], get_node(topo, op['node']).add_network_service(
+            name=op['name'], node_id=op.get('node_id'), nstype=ServiceType[op['nstype']], **kw))
     if o == 'remove_node_service':
         return get_node(topo, op['node']).remove_network_service(op['name'])
     if o == 'service_add_interface':
-        return get_service(topo, op['service']).add_interface(name=op['name'], node_id=op.get('node_id'),
+        return get_service(topo, op['service'], op.get('cached')).add_interface(name=op['name'], node_id=op.get('node_id'),
                                                               itype=InterfaceType[op['itype']], **kw)
     if o == 'service_remove_interface':
-        return get_service(topo, op['service']).remove_interface(name=op['name'])
+        return get_service(topo, op['service'], op.get('cached')).remove_interface(name=op['name'])
     if o == 'connect_interface':
-        return get_service(topo, op['service']).connect_interface(get_iface(topo, op['iface']))
+        return get_service(topo, op['service'], op.get('cached')).connect_interface(get_iface(topo, op['iface']))
     if o == 'disconnect_interface':
-        return get_service(topo, op['service']).disconnect_interface(get_iface(topo, op['iface']))
+        return get_service(topo, op['service'], op.get('cached')).disconnect_interface(get_iface(topo, op['iface']))
     if o == 'peer':
-        return get_service(topo, op['a']).peer(get_service(topo, op['b']))
+        return get_service(topo, op['a'], op.get('cached')).peer(get_service(topo, op['b'], op.get('cached')))
     if o == 'unpeer':
-        return get_service(topo, op['a']).unpeer(get_service(topo, op['b']))
+        return get_service(topo, op['a'], op.get('cached')).unpeer(get_service(topo, op['b'], op.get('cached')))
     if o == 'add_child_interface':
         return get_iface(topo, op['iface']).add_child_interface(name=op['name'], node_id=op.get('node_id'), **kw)
     if o == 'remove_child_interface':
@@ -314,6 +332,18 @@ def execute(topo, op):
         return get_element(topo, op['elem']).set_properties(**kw)
     if o == 'unset_property':
         return get_element(topo, op['elem']).unset_property(op['pname'])
+    if o == 'make_stale_ifaces':
+        # build a node with a NIC, keep its interface handles, remove the node: the handles are now stale
+        n = topo.add_node(name=op['name'], node_id=op.get('node_id'), site='RENC', ntype=NodeType.VM)
+        kwn = {}
+        if op.get('substrate'):
+            b = op['node_id']
+            kwn = dict(node_id=b + '-c', network_service_node_id=b + '-sf', interface_node_ids=[b + '-p1', b + '-p2'],
+                       interface_labels=[mk_value('labels', {'mac': '04:3F:72:B7:15:0A'}), mk_value('labels', {'mac': '04:3F:72:B7:15:0B'})])
+        n.add_component(name='stalenic', model_type=ComponentModelType.SmartNIC_ConnectX_6, **kwn)
+        topo._verif_stale = list(n.interface_list)
+        topo.remove_node(op['name'])
+        return None
     if o == 'validate':
         return topo.validate()
     raise AssertionError(o)
@@ -389,6 +419,13 @@ class Gen:
         return kw
 
     def next_op(self):
+        op = self._next_op()
+        if op['op'] in ('service_add_interface', 'service_remove_interface', 'connect_interface', 'disconnect_interface',
+                        'peer', 'unpeer') and self.rng.random() < 0.4:
+            op['cached'] = True
+        return op
+
+    def _next_op(self):
         r = self.rng
         tm = tm_of(self.topo)
         nodes = tm.ids('NetworkNode')
@@ -443,6 +480,8 @@ class Gen:
                 op['kw'] = {'labels': {'vlan_range': '100-200'}, 'capacities': {'bw': 10}}
             elif m < 0.8:
                 op['interfaces'] = [[self.fresh('fi'), {'vlan_range': '100-200'}, {'bw': 10}] for _ in range(r.randrange(1, 4))]
+                if len(op['interfaces']) > 1 and r.random() > self.p_valid:
+                    op['interfaces'][-1][0] = op['interfaces'][0][0]
             return op
         if k < 43:
             facs = [tm.name(n) for n in nodes if tm.typ(n) == 'Facility']
